@@ -42,6 +42,14 @@ func c04Spellings(maxUp int) []c04Spelling {
 		{2, "outside.txt", "outside-root"},
 		{2, "ver/bk-other", "versioning-dir"},
 	}
+	// parameters that are joined below deeper internal directories (upload ids, version ids) need more levels
+	for _, t := range targets[:1] {
+		for up := 2; up <= 5; up++ {
+			plain := strings.Repeat("../", up) + t.tail
+			out = append(out, c04Spelling{Name: fmt.Sprintf("raw-%d-levels", up), Plain: plain, Wire: rawPath(plain), Class: t.class})
+			out = append(out, c04Spelling{Name: fmt.Sprintf("pct-all-%d-levels", up), Plain: plain, Wire: strings.ReplaceAll(strings.ReplaceAll(rawPath(plain), "..", "%2E%2E"), "/", "%2F"), Class: t.class})
+		}
+	}
 	for _, t := range targets {
 		for extra := 0; extra <= maxUp-t.up && extra <= 2; extra++ {
 			// extra descents that are undone again: a/../
@@ -53,6 +61,9 @@ func c04Spellings(maxUp int) []c04Spelling {
 			out = append(out, c04Spelling{Name: "pct-slash", Plain: plain, Wire: strings.ReplaceAll(rawPath(plain), "/", "%2f"), Class: t.class})
 			out = append(out, c04Spelling{Name: "pct-all", Plain: plain, Wire: strings.ReplaceAll(strings.ReplaceAll(rawPath(plain), "..", "%2E%2E"), "/", "%2F"), Class: t.class})
 			if extra == 0 {
+				// a malformed percent escape in an earlier element (must not make the request skip the checks on the rest)
+				out = append(out, c04Spelling{Name: "bad-escape-then-raw", Plain: "%zz/../" + plain, Wire: "%zz/../" + rawPath(plain), Class: t.class})
+				out = append(out, c04Spelling{Name: "trailing-percent-then-raw", Plain: "x%/../" + plain, Wire: "x%/../" + rawPath(plain), Class: t.class})
 				out = append(out, c04Spelling{Name: "double-encoded", Plain: strings.ReplaceAll(plain, "..", "%2e%2e"), Wire: strings.ReplaceAll(rawPath(plain), "..", "%252e%252e"), Class: t.class})
 				out = append(out, c04Spelling{Name: "backslash", Plain: strings.ReplaceAll(plain, "/", "\\"), Class: t.class})
 				out = append(out, c04Spelling{Name: "unicode-dots", Plain: strings.ReplaceAll(plain, "..", "．．"), Class: t.class})
@@ -188,6 +199,10 @@ func C04(r *ck.Run) {
 			}
 			for _, sp := range sps {
 				cases = append(cases, c04Case{ep.ID, "query:" + p, sp})
+				if p == "uploadId" || p == "versionId" {
+					// the parameter given twice: what is validated and what is used must be the same occurrence
+					cases = append(cases, c04Case{ep.ID, "query-twice-hostile-last:" + p, sp}, c04Case{ep.ID, "query-twice-hostile-first:" + p, sp})
+				}
 			}
 		}
 		if ep.ID == "CopyObject" || ep.ID == "UploadPartCopy" {
@@ -247,6 +262,14 @@ func C04(r *ck.Run) {
 					if c.Sp.Name == "raw" {
 						req.Path = "/" + w.Bucket + "/" + c.Sp.Wire // raw slashes in a bucket position are just a longer path
 					}
+				case strings.HasPrefix(c.Param, "query-twice-hostile-last:"):
+					name := strings.TrimPrefix(c.Param, "query-twice-hostile-last:")
+					req.Query = dropQuery(req.Query, name)
+					req.Query = strings.TrimPrefix(req.Query+"&"+gw.Q(name, "0")+"&"+gw.Q(name, c.Sp.Plain), "&")
+				case strings.HasPrefix(c.Param, "query-twice-hostile-first:"):
+					name := strings.TrimPrefix(c.Param, "query-twice-hostile-first:")
+					req.Query = dropQuery(req.Query, name)
+					req.Query = strings.TrimPrefix(req.Query+"&"+gw.Q(name, c.Sp.Plain)+"&"+gw.Q(name, "0"), "&")
 				case strings.HasPrefix(c.Param, "query:"):
 					req.Query = setQuery(req.Query, strings.TrimPrefix(c.Param, "query:"), c.Sp.Plain)
 				case c.Param == "copy-source-key":
@@ -269,7 +292,15 @@ func C04(r *ck.Run) {
 				if ep.Level == "admin" {
 					cred = gw.Root
 				}
-				gw.Sign(req, cred, gw.SignOpts{})
+				if strings.Contains(req.Path, "%zz") || strings.Contains(req.Path, "x%/") {
+					// a malformed escape: the signature is computed over the path as a lenient server re-escapes it
+					wire := req.Path
+					req.Path = strings.ReplaceAll(strings.ReplaceAll(wire, "%zz", "%25zz"), "x%/", "x%25/")
+					gw.Sign(req, cred, gw.SignOpts{})
+					req.Path = wire
+				} else {
+					gw.Sign(req, cred, gw.SignOpts{})
+				}
 				resp := w.F.G.Do(req)
 				r.Add("evaluations", 1)
 				r.Distinct(fmt.Sprintf("%d|%s|%s|%s|%s", ci, c.EP, c.Param, c.Sp.Name, c.Sp.Plain))
@@ -466,4 +497,16 @@ func c04Glob(r *ck.Run, cfg gw.Opts) {
 			r.Violation(ck.JoinSig("policy-glob-vs-resolved-path", t.method, strings.Join(dedup(an), "+")), map[string]any{"request": req.String(), "headers": req.Headers, "response": resp.String(), "policy": pol})
 		}
 	}
+}
+
+// dropQuery removes every occurrence of a parameter from a raw query string.
+func dropQuery(q, name string) string {
+	var keep []string
+	for _, kv := range strings.Split(q, "&") {
+		if kv == "" || kv == name || strings.HasPrefix(kv, name+"=") {
+			continue
+		}
+		keep = append(keep, kv)
+	}
+	return strings.Join(keep, "&")
 }
